@@ -103,9 +103,30 @@ pub struct Case {
     /// timestamps or ids, where a numerically careless pooled update cancels catastrophically
     #[serde(default)]
     pub offset: f64,
+    /// run the learner in single precision (data are then exactly representable in f32)
+    #[serde(default)]
+    pub f32: bool,
+    /// hand every batch to the learner as a column-major (Fortran-order) array
+    #[serde(default)]
+    pub colmajor: bool,
+    /// multiply the FTRL features by this (large values saturate the predicted probabilities)
+    #[serde(default)]
+    pub x_scale: f64,
     /// environment of process epoch e is envs[e % len]
     pub envs: Vec<Env>,
     pub storage_seed: u64,
+}
+
+impl Case {
+    /// one history in five runs in single precision; far-from-origin data only in double
+    /// (an offset of 1e6 leaves f32 no digits for the variance)
+    fn with_precision(mut self, r: &mut Prng, learner: Learner) -> Case {
+        self.f32 = r.chance(0.2);
+        if !self.f32 && matches!(learner, Learner::Gnb | Learner::KMeans) && r.chance(0.25) {
+            self.offset = *r.pick(&[1e4, 1e6, 1e8]);
+        }
+        self
+    }
 }
 
 #[derive(Clone, Debug, Default, Serialize, Deserialize)]
@@ -175,6 +196,13 @@ pub fn make_data(c: &Case) -> Data {
                 x[[i, j]] = x[[src, j]];
             }
         }
+    }
+    if c.learner == Learner::Ftrl && c.x_scale > 0.0 {
+        x.mapv_inplace(|v| v * c.x_scale);
+    }
+    if c.f32 {
+        // both the learner (which gets the data cast to f32) and the f64 reference see the same numbers
+        x.mapv_inplace(|v| v as f32 as f64);
     }
     let yb: Vec<bool> = (0..c.n).map(|i| (y[i] % 2 == 1) ^ r.chance(0.1)).collect();
     let mut batches = Vec::new();
@@ -443,22 +471,82 @@ fn close(a: f64, b: f64, rel: f64, abs: f64) -> bool {
 }
 
 // ---------------------------------------------------------------------------
+// the learners are generic over the float type (f64 and f32)
+// ---------------------------------------------------------------------------
+pub trait Fl: linfa::Float + Serialize + DeserializeOwned + Send + Sync + 'static {
+    /// machine epsilon of the type, as f64: tolerances are stated in multiples of it
+    const EPS: f64;
+    fn to64(self) -> f64;
+    fn of64(v: f64) -> Self;
+    fn bits64(self) -> u64;
+}
+impl Fl for f64 {
+    const EPS: f64 = f64::EPSILON;
+    fn to64(self) -> f64 {
+        self
+    }
+    fn of64(v: f64) -> f64 {
+        v
+    }
+    fn bits64(self) -> u64 {
+        self.to_bits()
+    }
+}
+impl Fl for f32 {
+    const EPS: f64 = f32::EPSILON as f64;
+    fn to64(self) -> f64 {
+        self as f64
+    }
+    fn of64(v: f64) -> f32 {
+        v as f32
+    }
+    fn bits64(self) -> u64 {
+        self.to_bits() as u64
+    }
+}
+/// tolerance multiplier relative to the f64 settings (1 for f64, ~5e8 for f32)
+fn tm<F: Fl>() -> f64 {
+    F::EPS / f64::EPSILON
+}
+/// rows `a..b` of the data in the learner's float type and the case's memory layout
+fn batch_records<F: Fl>(c: &Case, d: &Data, a: usize, b: usize) -> Array2<F> {
+    let v = d.x.slice(ndarray::s![a..b, ..]);
+    if c.colmajor {
+        use ndarray::ShapeBuilder;
+        let mut f = Array2::<F>::zeros((b - a, c.d).f());
+        ndarray::Zip::from(&mut f).and(&v).for_each(|o, &i| *o = F::of64(i));
+        f
+    } else {
+        v.mapv(F::of64)
+    }
+}
+fn cast2<F: Fl>(a: &Array2<f64>) -> Array2<F> {
+    a.mapv(F::of64)
+}
+fn vec64<F: Fl>(a: &Array1<F>) -> Vec<f64> {
+    a.iter().map(|v| v.to64()).collect()
+}
+
+// ---------------------------------------------------------------------------
 // naive Bayes
 // ---------------------------------------------------------------------------
-struct NbSut {
+struct NbSut<F> {
     gaussian: bool,
+    _f: std::marker::PhantomData<F>,
 }
 
 #[derive(Clone, Serialize, Deserialize)]
-enum NbModel {
-    GU(GaussianNb<f64, usize>),
-    GS(GaussianNb<f64, String>),
-    MU(MultinomialNb<f64, usize>),
-    MS(MultinomialNb<f64, String>),
+#[serde(bound = "F: Fl")]
+enum NbModel<F: Fl> {
+    GU(GaussianNb<F, usize>),
+    GS(GaussianNb<F, String>),
+    MU(MultinomialNb<F, usize>),
+    MS(MultinomialNb<F, String>),
 }
 
-impl NbModel {
+impl<F: Fl> NbModel<F> {
     fn predict(&self, x: &Array2<f64>) -> Vec<String> {
+        let x = &cast2::<F>(x);
         match self {
             NbModel::GU(m) => m.predict(x).iter().map(|l| l.to_string()).collect(),
             NbModel::MU(m) => m.predict(x).iter().map(|l| l.to_string()).collect(),
@@ -485,15 +573,15 @@ fn label_name(c: &Case, cls: usize) -> String {
     }
 }
 
-impl Sut for NbSut {
-    type Model = NbModel;
-    fn apply(&self, c: &Case, d: &Data, m: Option<NbModel>, _p: &mut BTreeMap<usize, Vec<f32>>, op: &Op, out: &mut Out) -> Result<Option<NbModel>, String> {
+impl<F: Fl> Sut for NbSut<F> {
+    type Model = NbModel<F>;
+    fn apply(&self, c: &Case, d: &Data, m: Option<NbModel<F>>, _p: &mut BTreeMap<usize, Vec<f32>>, op: &Op, out: &mut Out) -> Result<Option<NbModel<F>>, String> {
         let j = match op {
             Op::Fit(j) => *j,
             _ => return Err("naive Bayes only takes Fit operations".into()),
         };
         let (a, b) = d.batches[j];
-        let x = d.x.slice(ndarray::s![a..b, ..]).to_owned();
+        let x: Array2<F> = batch_records::<F>(c, d, a, b);
         let present: std::collections::BTreeSet<usize> = d.y[a..b].iter().copied().collect();
         if present.len() < c.k {
             out.class_missing_batches += 1;
@@ -514,7 +602,7 @@ impl Sut for NbSut {
                     None => None,
                     _ => return Err("model type changed".into()),
                 };
-                step!(GaussianNb::<f64, usize>::params().var_smoothing(c.hyper.var_smoothing), yu, prev, NbModel::GU)
+                step!(GaussianNb::<F, usize>::params().var_smoothing(F::of64(c.hyper.var_smoothing)), yu, prev, NbModel::GU)
             }
             (true, true) => {
                 let prev = match m {
@@ -522,7 +610,7 @@ impl Sut for NbSut {
                     None => None,
                     _ => return Err("model type changed".into()),
                 };
-                step!(GaussianNb::<f64, String>::params().var_smoothing(c.hyper.var_smoothing), ys, prev, NbModel::GS)
+                step!(GaussianNb::<F, String>::params().var_smoothing(F::of64(c.hyper.var_smoothing)), ys, prev, NbModel::GS)
             }
             (false, false) => {
                 let prev = match m {
@@ -530,7 +618,7 @@ impl Sut for NbSut {
                     None => None,
                     _ => return Err("model type changed".into()),
                 };
-                step!(MultinomialNb::<f64, usize>::params().alpha(c.hyper.mnb_alpha), yu, prev, NbModel::MU)
+                step!(MultinomialNb::<F, usize>::params().alpha(F::of64(c.hyper.mnb_alpha)), yu, prev, NbModel::MU)
             }
             (false, true) => {
                 let prev = match m {
@@ -538,13 +626,13 @@ impl Sut for NbSut {
                     None => None,
                     _ => return Err("model type changed".into()),
                 };
-                step!(MultinomialNb::<f64, String>::params().alpha(c.hyper.mnb_alpha), ys, prev, NbModel::MS)
+                step!(MultinomialNb::<F, String>::params().alpha(F::of64(c.hyper.mnb_alpha)), ys, prev, NbModel::MS)
             }
         };
         Ok(r)
     }
 
-    fn snapshot(&self, _c: &Case, d: &Data, m: &Option<NbModel>) -> String {
+    fn snapshot(&self, _c: &Case, d: &Data, m: &Option<NbModel<F>>) -> String {
         match m {
             None => "null".into(),
             // predictions are deliberately not part of the history-determinism snapshot: the
@@ -557,7 +645,7 @@ impl Sut for NbSut {
         }
     }
 
-    fn reference(&self, c: &Case, d: &Data, _prev: &Option<NbModel>, _pb: &BTreeMap<usize, Vec<f32>>, pos: usize, now: &Option<NbModel>, out: &mut Out) -> Option<String> {
+    fn reference(&self, c: &Case, d: &Data, _prev: &Option<NbModel<F>>, _pb: &BTreeMap<usize, Vec<f32>>, pos: usize, now: &Option<NbModel<F>>, out: &mut Out) -> Option<String> {
         let m = match now {
             Some(m) => m,
             None => return Some("fit_with returned no model".into()),
@@ -628,7 +716,8 @@ impl Sut for NbSut {
             if ci["class_count"].as_u64() != Some(cnt as u64) {
                 return Some(format!("class {name}: class_count {} but {cnt} samples of it were delivered", ci["class_count"]));
             }
-            let prior = cnt as f64 / total as f64;
+            // the class frequency, computed in the model's float type
+            let prior = (F::of64(cnt as f64) / F::of64(total as f64)).to64();
             if ci["prior"].as_f64() != Some(prior) {
                 return Some(format!("class {name}: prior {} is not the class frequency {cnt}/{total} = {prior}", ci["prior"]));
             }
@@ -643,12 +732,12 @@ impl Sut for NbSut {
                 for j in 0..c.d {
                     let mean = idx.iter().map(|&r| d.x[[r, j]]).sum::<f64>() / cnt as f64;
                     let var = idx.iter().map(|&r| (d.x[[r, j]] - mean).powi(2)).sum::<f64>() / cnt as f64;
-                    if !close(theta[j], mean, 1e-12, 1e-9 * (1.0 + var.sqrt()) + 64.0 * f64::EPSILON * scale) {
+                    if !close(theta[j], mean, 1e4 * F::EPS, 1e7 * F::EPS * (1.0 + var.sqrt()) + 64.0 * F::EPS * scale) {
                         return Some(format!("class {name} feature {j}: mean {} but the mean of the delivered samples is {mean}", theta[j]));
                     }
                     // floating-point error of a numerically stable pooled update: relative to the
                     // variance, plus the rounding of the means (magnitude `scale`) entering (mu_a - mu_b)^2
-                    let tol = 2.0 * (eps_hi - eps_lo) + 1e-9 * var + 256.0 * f64::EPSILON * scale * (1.0 + var.sqrt()) + 1e-12;
+                    let tol = 2.0 * (eps_hi - eps_lo) + 1e7 * F::EPS * var + 256.0 * F::EPS * scale * (1.0 + var.sqrt()) + 1e4 * F::EPS * eps_hi + 1e-12 * tm::<F>();
                     if sigma[j] < var + eps_lo - tol || sigma[j] > var + eps_hi + tol || !sigma[j].is_finite() {
                         return Some(format!(
                             "class {name} feature {j}: smoothed variance {} outside [{}, {}] (variance of the delivered samples {var} + smoothing epsilon)",
@@ -690,7 +779,7 @@ impl Sut for NbSut {
                         return Some(format!("class {name} feature {j}: feature_count {} but the delivered samples sum to {}", fc[j], counts[j]));
                     }
                     let lp = (counts[j] + c.hyper.mnb_alpha).ln() - tot.ln();
-                    if !close(flp[j], lp, 1e-11, 1e-12) {
+                    if !close(flp[j], lp, 1e-11 * tm::<F>(), 1e-12 * tm::<F>()) {
                         return Some(format!("class {name} feature {j}: feature_log_prob {} but the additively smoothed frequency gives {lp}", flp[j]));
                     }
                     for q in 0..nq {
@@ -718,7 +807,7 @@ impl Sut for NbSut {
                 }
             }
             let (b, lo_b) = best?;
-            let slack = 1e-7 * (1.0 + lo_b.abs());
+            let slack = (1e-7 + 64.0 * F::EPS * c.d as f64) * (1.0 + lo_b.abs());
             for (cl, h) in &ll_hi {
                 if *cl != b && h[q] + slack >= lo_b {
                     return None;
@@ -741,36 +830,37 @@ impl Sut for NbSut {
         }
         // at the end of the log: batch-by-batch == one fit on everything delivered
         if pos == c.ops.len() && total > 0 {
-            let x = Array2::from_shape_fn((total, c.d), |(i, j)| d.x[[rows[i], j]]);
+            let x: Array2<F> = Array2::from_shape_fn((total, c.d), |(i, j)| F::of64(d.x[[rows[i], j]]));
+            let qf: Array2<F> = cast2::<F>(&d.queries);
             let single: Result<Vec<String>, String> = (|| {
                 Ok(match (self.gaussian, c.string_labels) {
-                    (true, false) => GaussianNb::<f64, usize>::params()
-                        .var_smoothing(c.hyper.var_smoothing)
+                    (true, false) => GaussianNb::<F, usize>::params()
+                        .var_smoothing(F::of64(c.hyper.var_smoothing))
                         .fit(&DatasetBase::new(x, Array1::from(rows.iter().map(|&r| d.y[r]).collect::<Vec<_>>())))
                         .map_err(|e| e.to_string())?
-                        .predict(&d.queries)
+                        .predict(&qf)
                         .iter()
                         .map(|l| l.to_string())
                         .collect(),
-                    (true, true) => GaussianNb::<f64, String>::params()
-                        .var_smoothing(c.hyper.var_smoothing)
+                    (true, true) => GaussianNb::<F, String>::params()
+                        .var_smoothing(F::of64(c.hyper.var_smoothing))
                         .fit(&DatasetBase::new(x, Array1::from(rows.iter().map(|&r| label_str(d.y[r])).collect::<Vec<_>>())))
                         .map_err(|e| e.to_string())?
-                        .predict(&d.queries)
+                        .predict(&qf)
                         .to_vec(),
-                    (false, false) => MultinomialNb::<f64, usize>::params()
-                        .alpha(c.hyper.mnb_alpha)
+                    (false, false) => MultinomialNb::<F, usize>::params()
+                        .alpha(F::of64(c.hyper.mnb_alpha))
                         .fit(&DatasetBase::new(x, Array1::from(rows.iter().map(|&r| d.y[r]).collect::<Vec<_>>())))
                         .map_err(|e| e.to_string())?
-                        .predict(&d.queries)
+                        .predict(&qf)
                         .iter()
                         .map(|l| l.to_string())
                         .collect(),
-                    (false, true) => MultinomialNb::<f64, String>::params()
-                        .alpha(c.hyper.mnb_alpha)
+                    (false, true) => MultinomialNb::<F, String>::params()
+                        .alpha(F::of64(c.hyper.mnb_alpha))
                         .fit(&DatasetBase::new(x, Array1::from(rows.iter().map(|&r| label_str(d.y[r])).collect::<Vec<_>>())))
                         .map_err(|e| e.to_string())?
-                        .predict(&d.queries)
+                        .predict(&qf)
                         .to_vec(),
                 })
             })();
@@ -792,21 +882,22 @@ impl Sut for NbSut {
 // ---------------------------------------------------------------------------
 // mini-batch k-means
 // ---------------------------------------------------------------------------
-struct KmSut;
+struct KmSut<F>(std::marker::PhantomData<F>);
 
 #[derive(Clone, Serialize, Deserialize)]
-enum KmModel {
-    L2(KMeans<f64, L2Dist>),
-    L1(KMeans<f64, L1Dist>),
+#[serde(bound = "F: Fl")]
+enum KmModel<F: Fl> {
+    L2(KMeans<F, L2Dist>),
+    L1(KMeans<F, L1Dist>),
 }
-impl KmModel {
-    fn centroids(&self) -> &Array2<f64> {
+impl<F: Fl> KmModel<F> {
+    fn centroids(&self) -> &Array2<F> {
         match self {
             KmModel::L2(m) => m.centroids(),
             KmModel::L1(m) => m.centroids(),
         }
     }
-    fn counts(&self) -> &Array1<f64> {
+    fn counts(&self) -> &Array1<F> {
         match self {
             KmModel::L2(m) => m.cluster_count(),
             KmModel::L1(m) => m.cluster_count(),
@@ -814,20 +905,20 @@ impl KmModel {
     }
     fn inertia(&self) -> f64 {
         match self {
-            KmModel::L2(m) => m.inertia(),
-            KmModel::L1(m) => m.inertia(),
+            KmModel::L2(m) => m.inertia().to64(),
+            KmModel::L1(m) => m.inertia().to64(),
         }
     }
 }
 
-fn km_init(c: &Case, d: &Data) -> KMeansInit<f64> {
+fn km_init<F: Fl>(c: &Case, d: &Data) -> KMeansInit<F> {
     match c.hyper.km_init.as_str() {
         "random" => KMeansInit::Random,
         "pp" => KMeansInit::KMeansPlusPlus,
         _ => {
             // first k rows of the data (distinct by construction of the generator only
             // with high probability — duplicates are legal input)
-            KMeansInit::Precomputed(d.x.slice(ndarray::s![0..c.k, ..]).to_owned())
+            KMeansInit::Precomputed(d.x.slice(ndarray::s![0..c.k, ..]).mapv(F::of64))
         }
     }
 }
@@ -836,19 +927,19 @@ thread_local! {
     static LAST_VERDICT: std::cell::Cell<Option<bool>> = const { std::cell::Cell::new(None) };
 }
 
-impl Sut for KmSut {
-    type Model = KmModel;
-    fn apply(&self, c: &Case, d: &Data, m: Option<KmModel>, _p: &mut BTreeMap<usize, Vec<f32>>, op: &Op, out: &mut Out) -> Result<Option<KmModel>, String> {
+impl<F: Fl> Sut for KmSut<F> {
+    type Model = KmModel<F>;
+    fn apply(&self, c: &Case, d: &Data, m: Option<KmModel<F>>, _p: &mut BTreeMap<usize, Vec<f32>>, op: &Op, out: &mut Out) -> Result<Option<KmModel<F>>, String> {
         let j = match op {
             Op::Fit(j) => *j,
             _ => return Err("k-means only takes Fit operations".into()),
         };
         let (a, b) = d.batches[j];
-        let ds = DatasetBase::from(d.x.slice(ndarray::s![a..b, ..]).to_owned());
+        let ds = DatasetBase::from(batch_records::<F>(c, d, a, b));
         let rng = Xoshiro256Plus::seed_from_u64(c.data_seed);
         macro_rules! step {
             ($dist:expr, $prev:expr, $wrap:path) => {{
-                let params = KMeans::params_with(c.k, rng, $dist).tolerance(c.hyper.km_tolerance).init_method(km_init(c, d)).check().map_err(|e| e.to_string())?;
+                let params = KMeans::params_with(c.k, rng, $dist).tolerance(F::of64(c.hyper.km_tolerance)).init_method(km_init::<F>(c, d)).check().map_err(|e| e.to_string())?;
                 // the documented protocol: NotConverged carries the model, feed it back
                 match params.fit_with($prev, &ds) {
                     Ok(m) => {
@@ -883,20 +974,21 @@ impl Sut for KmSut {
         Ok(Some(r))
     }
 
-    fn snapshot(&self, _c: &Case, d: &Data, m: &Option<KmModel>) -> String {
+    fn snapshot(&self, _c: &Case, d: &Data, m: &Option<KmModel<F>>) -> String {
         match m {
             None => "null".into(),
             Some(m) => {
-                let (pred, tr): (Vec<usize>, Vec<f64>) = match m {
-                    KmModel::L2(k) => (k.predict(&d.queries).to_vec(), k.transform(&d.queries).to_vec()),
-                    KmModel::L1(k) => (k.predict(&d.queries).to_vec(), k.transform(&d.queries).to_vec()),
+                let q = cast2::<F>(&d.queries);
+                let (pred, tr): (Vec<usize>, Vec<F>) = match m {
+                    KmModel::L2(k) => (k.predict(&q).to_vec(), k.transform(&q).to_vec()),
+                    KmModel::L1(k) => (k.predict(&q).to_vec(), k.transform(&q).to_vec()),
                 };
-                bits_json(&json!({"centroids": m.centroids().iter().map(|v| v.to_bits()).collect::<Vec<_>>(), "counts": m.counts().to_vec(), "inertia": m.inertia().to_bits(), "predict": pred, "transform": tr.iter().map(|v| v.to_bits()).collect::<Vec<_>>()}))
+                bits_json(&json!({"centroids": m.centroids().iter().map(|v| v.bits64()).collect::<Vec<_>>(), "counts": vec64(m.counts()), "inertia": m.inertia().to_bits(), "predict": pred, "transform": tr.iter().map(|v| v.bits64()).collect::<Vec<_>>()}))
             }
         }
     }
 
-    fn reference(&self, c: &Case, d: &Data, prev: &Option<KmModel>, _pb: &BTreeMap<usize, Vec<f32>>, pos: usize, now: &Option<KmModel>, _out: &mut Out) -> Option<String> {
+    fn reference(&self, c: &Case, d: &Data, prev: &Option<KmModel<F>>, _pb: &BTreeMap<usize, Vec<f32>>, pos: usize, now: &Option<KmModel<F>>, _out: &mut Out) -> Option<String> {
         let now = now.as_ref()?;
         let verdict = LAST_VERDICT.with(|v| v.get());
         let j = match c.ops[pos - 1] {
@@ -907,16 +999,16 @@ impl Sut for KmSut {
         let nb = b - a;
         // previous state: the real model before the op, or the precomputed initial centroids
         let (mut cen, mut cnt): (Vec<Vec<f64>>, Vec<f64>) = match prev {
-            Some(p) => (p.centroids().rows().into_iter().map(|r| r.to_vec()).collect(), p.counts().to_vec()),
-            None => match km_init(c, d) {
-                KMeansInit::Precomputed(ctr) => (ctr.rows().into_iter().map(|r| r.to_vec()).collect(), vec![0.0; c.k]),
+            Some(p) => (p.centroids().rows().into_iter().map(|r| r.iter().map(|v| v.to64()).collect()).collect(), vec64(p.counts())),
+            None => match km_init::<F>(c, d) {
+                KMeansInit::Precomputed(ctr) => (ctr.rows().into_iter().map(|r| r.iter().map(|v| v.to64()).collect()).collect(), vec![0.0; c.k]),
                 _ => {
                     // seeded initialiser: the start is not observable; check what is
-                    let s: f64 = now.counts().sum();
+                    let s: f64 = now.counts().sum().to64();
                     if s != nb as f64 {
                         return Some(format!("cluster counts sum to {s} after a first batch of {nb} rows"));
                     }
-                    if now.centroids().nrows() != c.k || now.centroids().iter().any(|v| !v.is_finite()) {
+                    if now.centroids().nrows() != c.k || now.centroids().iter().any(|v| !v.to64().is_finite()) {
                         return Some("centroids are not k finite rows".into());
                     }
                     return None;
@@ -956,16 +1048,16 @@ impl Sut for KmSut {
             }
         }
         for ci in 0..c.k {
-            if now.counts()[ci] != cnt[ci] {
-                return Some(format!("cluster {ci}: cumulative count {} but the recurrence gives {}", now.counts()[ci], cnt[ci]));
+            if now.counts()[ci].to64() != cnt[ci] {
+                return Some(format!("cluster {ci}: cumulative count {} but the recurrence gives {}", now.counts()[ci].to64(), cnt[ci]));
             }
             for jf in 0..c.d {
-                if !close(now.centroids()[[ci, jf]], cen[ci][jf], 1e-12, 1e-12) {
-                    return Some(format!("centroid {ci} feature {jf}: {} but the running-mean update of the previous state gives {}", now.centroids()[[ci, jf]], cen[ci][jf]));
+                if !close(now.centroids()[[ci, jf]].to64(), cen[ci][jf], 1e-12 * tm::<F>(), 1e-12 * tm::<F>()) {
+                    return Some(format!("centroid {ci} feature {jf}: {} but the running-mean update of the previous state gives {}", now.centroids()[[ci, jf]].to64(), cen[ci][jf]));
                 }
             }
         }
-        if !close(now.inertia(), inertia / nb as f64, 1e-10, 1e-12) {
+        if !close(now.inertia(), inertia / nb as f64, 1e-10 * tm::<F>(), 1e-12 * tm::<F>()) {
             return Some(format!("inertia {} but the mean distance of the batch to the previous centroids is {}", now.inertia(), inertia / nb as f64));
         }
         // converged / not converged is reported truthfully
@@ -975,7 +1067,7 @@ impl Sut for KmSut {
             old.iter().zip(&cen).map(|(p, q)| p.iter().zip(q).map(|(a, b)| (a - b) * (a - b)).sum::<f64>()).sum::<f64>().sqrt()
         };
         let tol = c.hyper.km_tolerance;
-        if (shift - tol).abs() > 1e-9 * (1.0 + tol.abs()) {
+        if (shift - tol).abs() > (1e-9 * tm::<F>()).min(1e-3) * (1.0 + tol.abs() + shift.abs()) {
             if let Some(v) = verdict {
                 if v != (shift < tol) {
                     return Some(format!("reported {} but the centroids moved by {shift} with tolerance {tol}", if v { "converged" } else { "not converged" }));
@@ -989,10 +1081,11 @@ impl Sut for KmSut {
 // ---------------------------------------------------------------------------
 // FTRL
 // ---------------------------------------------------------------------------
-struct FtrlSut;
+struct FtrlSut<F>(std::marker::PhantomData<F>);
 
 #[derive(Clone, Serialize, Deserialize)]
-struct FtrlModel(Ftrl<f64>);
+#[serde(bound = "F: Fl")]
+struct FtrlModel<F: Fl>(Ftrl<F>);
 
 fn prox(z: f64, n: f64, h: &Hyper) -> f64 {
     let sign = if z < 0.0 { -1.0 } else { 1.0 };
@@ -1012,19 +1105,19 @@ fn sigmoid(v: f64) -> f64 {
     }
 }
 
-impl Sut for FtrlSut {
-    type Model = FtrlModel;
-    fn apply(&self, c: &Case, d: &Data, m: Option<FtrlModel>, pending: &mut BTreeMap<usize, Vec<f32>>, op: &Op, out: &mut Out) -> Result<Option<FtrlModel>, String> {
-        let params = Ftrl::<f64>::params_with_rng(Xoshiro256Plus::seed_from_u64(c.data_seed))
-            .alpha(c.hyper.ftrl_alpha)
-            .beta(c.hyper.ftrl_beta)
-            .l1_ratio(c.hyper.ftrl_l1)
-            .l2_ratio(c.hyper.ftrl_l2)
+impl<F: Fl> Sut for FtrlSut<F> {
+    type Model = FtrlModel<F>;
+    fn apply(&self, c: &Case, d: &Data, m: Option<FtrlModel<F>>, pending: &mut BTreeMap<usize, Vec<f32>>, op: &Op, out: &mut Out) -> Result<Option<FtrlModel<F>>, String> {
+        let params = Ftrl::<F>::params_with_rng(Xoshiro256Plus::seed_from_u64(c.data_seed))
+            .alpha(F::of64(c.hyper.ftrl_alpha))
+            .beta(F::of64(c.hyper.ftrl_beta))
+            .l1_ratio(F::of64(c.hyper.ftrl_l1))
+            .l2_ratio(F::of64(c.hyper.ftrl_l2))
             .check()
             .map_err(|e| e.to_string())?;
         let batch = |j: usize| {
             let (a, b) = d.batches[j];
-            DatasetBase::new(d.x.slice(ndarray::s![a..b, ..]).to_owned(), Array1::from(d.yb[a..b].to_vec()))
+            DatasetBase::new(batch_records::<F>(c, d, a, b), Array1::from(d.yb[a..b].to_vec()))
         };
         match *op {
             Op::Fit(j) => {
@@ -1054,25 +1147,34 @@ impl Sut for FtrlSut {
         }
     }
 
-    fn snapshot(&self, _c: &Case, d: &Data, m: &Option<FtrlModel>) -> String {
+    fn snapshot(&self, _c: &Case, d: &Data, m: &Option<FtrlModel<F>>) -> String {
         match m {
             None => "null".into(),
             Some(m) => bits_json(&json!({
-                "z": m.0.z().iter().map(|v| v.to_bits()).collect::<Vec<_>>(),
-                "n": m.0.n().iter().map(|v| v.to_bits()).collect::<Vec<_>>(),
-                "w": m.0.get_weights().iter().map(|v| v.to_bits()).collect::<Vec<_>>(),
-                "predict": m.0.predict(&d.queries).iter().map(|p| p.to_bits()).collect::<Vec<_>>(),
+                "z": m.0.z().iter().map(|v| v.bits64()).collect::<Vec<_>>(),
+                "n": m.0.n().iter().map(|v| v.bits64()).collect::<Vec<_>>(),
+                "w": m.0.get_weights().iter().map(|v| v.bits64()).collect::<Vec<_>>(),
+                "predict": m.0.predict(&cast2::<F>(&d.queries)).iter().map(|p| p.to_bits()).collect::<Vec<_>>(),
             })),
         }
     }
 
-    fn reference(&self, c: &Case, d: &Data, prev: &Option<FtrlModel>, pending_before: &BTreeMap<usize, Vec<f32>>, pos: usize, now: &Option<FtrlModel>, out: &mut Out) -> Option<String> {
+    fn reference(&self, c: &Case, d: &Data, prev: &Option<FtrlModel<F>>, pending_before: &BTreeMap<usize, Vec<f32>>, pos: usize, now: &Option<FtrlModel<F>>, out: &mut Out) -> Option<String> {
         let now = &now.as_ref()?.0;
-        let h = &c.hyper;
+        // the hyper-parameters as the model holds them (rounded to its float type)
+        let h = &Hyper {
+            ftrl_alpha: F::of64(c.hyper.ftrl_alpha).to64(),
+            ftrl_beta: F::of64(c.hyper.ftrl_beta).to64(),
+            ftrl_l1: F::of64(c.hyper.ftrl_l1).to64(),
+            ftrl_l2: F::of64(c.hyper.ftrl_l2).to64(),
+            ..c.hyper.clone()
+        };
+        let t = tm::<F>();
         // weights are exactly zero wherever |z| does not exceed the l1 strength
-        let w = now.get_weights();
+        let w = vec64(&now.get_weights());
+        let (zn, nn) = (vec64(now.z()), vec64(now.n()));
         for i in 0..c.d {
-            let z = now.z()[i];
+            let z = zn[i];
             if z.abs() <= h.ftrl_l1 {
                 out.exact_zero_weights += 1;
                 if w[i] != 0.0 {
@@ -1082,8 +1184,8 @@ impl Sut for FtrlSut {
                 if z.abs() <= h.ftrl_l1 * 1.5 + 1e-3 {
                     out.near_threshold_weights += 1;
                 }
-                let expect = prox(z, now.n()[i], h);
-                if !close(w[i], expect, 1e-12, 1e-15) {
+                let expect = prox(z, nn[i], h);
+                if !close(w[i], expect, 1e-12 * t, 1e-15 * t) {
                     return Some(format!("weight {i} is {} but the proximal formula gives {expect}", w[i]));
                 }
             }
@@ -1093,11 +1195,11 @@ impl Sut for FtrlSut {
                 // the synchronous step is, by its documentation, "predict the batch, then update
                 // with those probabilities": replaying it through the asynchronous API from the
                 // same previous state must give the identical state, bit for bit
-                let params = Ftrl::<f64>::params_with_rng(Xoshiro256Plus::seed_from_u64(c.data_seed))
-                    .alpha(h.ftrl_alpha)
-                    .beta(h.ftrl_beta)
-                    .l1_ratio(h.ftrl_l1)
-                    .l2_ratio(h.ftrl_l2)
+                let params = Ftrl::<F>::params_with_rng(Xoshiro256Plus::seed_from_u64(c.data_seed))
+                    .alpha(F::of64(c.hyper.ftrl_alpha))
+                    .beta(F::of64(c.hyper.ftrl_beta))
+                    .l1_ratio(F::of64(c.hyper.ftrl_l1))
+                    .l2_ratio(F::of64(c.hyper.ftrl_l2))
                     .check()
                     .ok()?;
                 let mut twin = match prev {
@@ -1105,17 +1207,17 @@ impl Sut for FtrlSut {
                     None => Ftrl::new(params, c.d),
                 };
                 let (a, b) = d.batches[j];
-                let ds = DatasetBase::new(d.x.slice(ndarray::s![a..b, ..]).to_owned(), Array1::from(d.yb[a..b].to_vec()));
+                // same values AND same memory layout as the batch the learner was given
+                let ds = DatasetBase::new(batch_records::<F>(c, d, a, b), Array1::from(d.yb[a..b].to_vec()));
                 let probs = twin.predict(ds.records());
                 twin.update(&ds, probs.view());
-                if twin.z() != now.z() || twin.n() != now.n() {
-                    let i = (0..c.d).find(|&i| twin.z()[i].to_bits() != now.z()[i].to_bits() || twin.n()[i].to_bits() != now.n()[i].to_bits()).unwrap_or(0);
+                if let Some(i) = (0..c.d).find(|&i| twin.z()[i].bits64() != now.z()[i].bits64() || twin.n()[i].bits64() != now.n()[i].bits64()) {
                     return Some(format!(
                         "fit_with and predict+update from the same state disagree: z[{i}] = {:e} vs {:e}, n[{i}] = {:e} vs {:e}",
-                        now.z()[i],
-                        twin.z()[i],
-                        now.n()[i],
-                        twin.n()[i]
+                        now.z()[i].to64(),
+                        twin.z()[i].to64(),
+                        now.n()[i].to64(),
+                        twin.n()[i].to64()
                     ));
                 }
                 (j, None)
@@ -1136,7 +1238,7 @@ impl Sut for FtrlSut {
             None => return None, // first fit: z starts from the seeded random draw, not observable before
         };
         let (a, b) = d.batches[j];
-        let (z0, n0) = (prev.z().to_vec(), prev.n().to_vec());
+        let (z0, n0) = (vec64(prev.z()), vec64(prev.n()));
         let w0: Vec<f64> = (0..c.d).map(|i| prox(z0[i], n0[i], h)).collect();
         // gradient = sum over rows of (p - y) x ; p is an f32 probability
         let mut g = vec![0.0f64; c.d];
@@ -1149,23 +1251,25 @@ impl Sut for FtrlSut {
                     sigmoid(dot) as f32 as f64
                 }
             };
-            let t = if d.yb[r] { 1.0 } else { 0.0 };
+            let tgt = if d.yb[r] { 1.0 } else { 0.0 };
             for i in 0..c.d {
-                g[i] += (p - t) * d.x[[r, i]];
-                // the internally computed probability may differ by one f32 ulp
-                g_slack[i] += if probs.is_none() { 1.3e-7 * d.x[[r, i]].abs() } else { 0.0 };
+                g[i] += (p - tgt) * d.x[[r, i]];
+                // the internally computed probability may differ by one f32 ulp (a few in f32 arithmetic)
+                g_slack[i] += if probs.is_none() { 1.3e-7 * d.x[[r, i]].abs() * t.min(8.0) } else { 0.0 };
             }
         }
         for i in 0..c.d {
             let sigma = ((n0[i] + g[i] * g[i]).sqrt() - n0[i].sqrt()) / h.ftrl_alpha;
             let z1 = z0[i] + g[i] - sigma * w0[i];
             let n1 = n0[i] + g[i] * g[i];
-            let slack = g_slack[i] * (1.0 + (w0[i].abs() / h.ftrl_alpha) + 2.0 * g[i].abs()) + 1e-10 * (1.0 + z1.abs() + n1.abs());
-            if (now.z()[i] - z1).abs() > slack {
-                return Some(format!("z[{i}] = {} but the FTRL-proximal recurrence applied to the previous state gives {z1}", now.z()[i]));
+            // rounding of the model's own arithmetic: a few hundred epsilons of the magnitudes involved
+            let mag = 1.0 + z1.abs() + n1.abs() + g[i].abs() * (1.0 + (b - a) as f64) + (sigma * w0[i]).abs();
+            let slack = g_slack[i] * (1.0 + (w0[i].abs() / h.ftrl_alpha) + 2.0 * g[i].abs()) + 1e-10 * (1.0 + z1.abs() + n1.abs()) + 512.0 * (F::EPS - f64::EPSILON) * mag * (1.0 + 1.0 / h.ftrl_alpha * w0[i].abs());
+            if (zn[i] - z1).abs() > slack {
+                return Some(format!("z[{i}] = {} but the FTRL-proximal recurrence applied to the previous state gives {z1}", zn[i]));
             }
-            if (now.n()[i] - n1).abs() > slack {
-                return Some(format!("n[{i}] = {} but the recurrence n += g^2 applied to the previous state gives {n1}", now.n()[i]));
+            if (nn[i] - n1).abs() > slack {
+                return Some(format!("n[{i}] = {} but the recurrence n += g^2 applied to the previous state gives {n1}", nn[i]));
             }
         }
         None
@@ -1311,8 +1415,12 @@ pub fn gen_case(r: &mut Prng, learner: Learner, big: bool) -> Case {
         faults,
         envs,
         storage_seed: r.next_u64() >> 16,
-        offset: if matches!(learner, Learner::Gnb | Learner::KMeans) && r.chance(0.25) { *r.pick(&[1e4, 1e6, 1e8]) } else { 0.0 },
+        offset: 0.0,
+        f32: false,
+        colmajor: r.chance(0.25),
+        x_scale: if learner == Learner::Ftrl && r.chance(0.3) { *r.pick(&[8.0, 30.0, 100.0]) } else { 0.0 },
     }
+    .with_precision(r, learner)
 }
 
 // ---------------------------------------------------------------------------
@@ -1356,11 +1464,16 @@ fn run_with<S: Sut>(sut: &S, c: &Case) -> Out {
 }
 
 pub fn run_case(c: &Case) -> Out {
-    match c.learner {
-        Learner::Gnb => run_with(&NbSut { gaussian: true }, c),
-        Learner::Mnb => run_with(&NbSut { gaussian: false }, c),
-        Learner::KMeans => run_with(&KmSut, c),
-        Learner::Ftrl => run_with(&FtrlSut, c),
+    use std::marker::PhantomData as Ph;
+    match (c.learner, c.f32) {
+        (Learner::Gnb, false) => run_with(&NbSut::<f64> { gaussian: true, _f: Ph }, c),
+        (Learner::Mnb, false) => run_with(&NbSut::<f64> { gaussian: false, _f: Ph }, c),
+        (Learner::KMeans, false) => run_with(&KmSut::<f64>(Ph), c),
+        (Learner::Ftrl, false) => run_with(&FtrlSut::<f64>(Ph), c),
+        (Learner::Gnb, true) => run_with(&NbSut::<f32> { gaussian: true, _f: Ph }, c),
+        (Learner::Mnb, true) => run_with(&NbSut::<f32> { gaussian: false, _f: Ph }, c),
+        (Learner::KMeans, true) => run_with(&KmSut::<f32>(Ph), c),
+        (Learner::Ftrl, true) => run_with(&FtrlSut::<f32>(Ph), c),
     }
 }
 
@@ -1487,7 +1600,7 @@ pub fn check(tier: &str, seed: u64) -> i32 {
             }
             _ => harness_error("wrong result kind"),
         };
-        *by_learner.entry(format!("{:?}", cases[i].learner)).or_default() += 1;
+        *by_learner.entry(format!("{:?}{}", cases[i].learner, if cases[i].f32 { "/f32" } else { "/f64" })).or_default() += 1;
         merge(&mut agg, &Out { violation: None, ..o.clone() });
         agg.crashes += o.crashes;
         agg.epochs += o.epochs;
